@@ -83,6 +83,43 @@ async fn verif_replay_hist_retention() {
             if store.messages().find(&format!("m{n}")).is_err() { bad.push(format!("REPLAY-FAIL {what}: a message record was deleted")); }
         }
     }
+    // model level: "deleting a model removes exactly its registered start events" -- over deploy histories (one deploy; a redeploy that drops,
+    // adds or keeps `on` entries), next to another model that registers an event of the same name
+    {
+        let engine = EngineBuilder::new().build().await.unwrap().start();
+        let store = engine.runtime().cache().store();
+        let mk = |mid: &str, evs: &[&str]| {
+            let mut w = Workflow::new().with_step(|s| s.with_id("step1"));
+            for e in evs { w.on.push(Act::new().with_id(e).with_uses("acts.event.manual")); }
+            w.set_id(mid);
+            w
+        };
+        let events_of = |mid: &str| -> Vec<String> {
+            let mut v: Vec<String> = store.events().query(&Query::new().push(Cond::and().push(Expr::eq("mid", mid.to_string()))).set_limit(1000)).unwrap().rows.iter().map(|e| e.id.clone()).collect();
+            v.sort(); v
+        };
+        let histories: Vec<(&str, Vec<Vec<&str>>)> = vec![
+            ("one deploy", vec![vec!["e1", "e2"]]),
+            ("redeploy drops an event", vec![vec!["e1", "e2"], vec!["e1"]]),
+            ("redeploy adds an event", vec![vec!["e1"], vec!["e1", "e2"]]),
+            ("redeploy replaces the events", vec![vec!["e1", "e2"], vec!["e3"]]),
+            ("three versions", vec![vec!["e1"], vec!["e2"], vec!["e1", "e3"]]),
+        ];
+        for (n, (name, versions)) in histories.iter().enumerate() {
+            let mid = format!("vm_rm_{n}");
+            let other = format!("vm_keep_{n}");
+            engine.executor().model().deploy(&mk(&other, &["e1", "e2"])).unwrap();
+            for v in versions.iter() { engine.executor().model().deploy(&mk(&mid, v)).unwrap(); }
+            let other_before = events_of(&other);
+            let r = engine.executor().model().rm(&mid);
+            if r.is_err() { bad.push(format!("REPLAY-FAIL model rm [{name}]: refused")); }
+            let left = events_of(&mid);
+            if !left.is_empty() { bad.push(format!("REPLAY-FAIL model rm [{name}]: start events {left:?} are still registered for the removed model")); }
+            if store.models().find(&mid).is_ok() { bad.push(format!("REPLAY-FAIL model rm [{name}]: the model row remains")); }
+            if events_of(&other) != other_before || other_before.len() != 2 { bad.push(format!("REPLAY-FAIL model rm [{name}]: the events of another model changed: {other_before:?} -> {:?}", events_of(&other))); }
+            if store.models().find(&other).is_err() { bad.push(format!("REPLAY-FAIL model rm [{name}]: another model was removed")); }
+        }
+    }
     for b in bad.iter().take(10) { println!("{b}"); }
     assert!(bad.is_empty(), "{} retention differences", bad.len());
 }
